@@ -809,6 +809,20 @@ def item? (n : Nat) : Json → Option Json
   | .arr xs => (JList.toList xs)[n]?
   | _ => none
 
+mutual
+/-- nesting depth: scalars 0, containers 1 + the deepest element -/
+def depth : Json → Nat
+  | .arr xs => 1 + depthL xs
+  | .obj ms => 1 + depthM ms
+  | _ => 0
+def depthL : JList → Nat
+  | .nil => 0
+  | .cons x xs => max (depth x) (depthL xs)
+def depthM : JMembers → Nat
+  | .nil => 0
+  | .cons _ v ms => max (depth v) (depthM ms)
+end
+
 def mkObj (ms : List (List Char × Json)) : Json := .obj (JMembers.ofList ms)
 def mkArr (xs : List Json) : Json := .arr (JList.ofList xs)
 def mkNat (n : Nat) : Json := .num (.int n)
